@@ -371,7 +371,10 @@ def bound(G, dtref, L, nrefsteps, rhonorm):
     C = max(float(np.linalg.norm(scipy.linalg.expm(G * dtref * k), 2)) for k in range(0, nrefsteps + 1))
     C = max(C, 1.0)
     local = x ** (L + 1) / math.factorial(L + 1) * math.exp(x)
-    return 2.0 * nrefsteps * C * local * rhonorm * (1 + local) ** nrefsteps + 1e-12 * rhonorm
+    # rounding: every refined step applies L+1 matrix products of dimension G.shape[0] in double precision, and the reference
+    # (scipy.linalg.expm) has an error of the same kind; for order 6 the truncation term alone is of the size of the rounding errors
+    rounding = (1e-12 + 4.5e-16 * nrefsteps * (L + 1) * G.shape[0] * C) * rhonorm
+    return 2.0 * nrefsteps * C * local * rhonorm * (1 + local) ** nrefsteps + rounding
 
 
 def float_monitors(chk, tier):
@@ -477,12 +480,15 @@ def float_monitors(chk, tier):
                     d = {2: x ** 4 / 4, 4: x ** 6 / 72 + x ** 8 / 576, 6: x ** 8 / 2880 + x ** 10 / 21600 + x ** 12 / 518400}[L]
                     for i in range(out.shape[0]):
                         b = bound(G, dtref, L, i * nref, 1.0)
+                        # the state vector is propagated with -iH, whose norm (largest |E_i|) can exceed that of the Liouvillian
+                        # (largest |E_i - E_j|): its own truncation bound
+                        bH = bound(-1j * Hm, dtref, L, i * nref, 1.0)
                         nd = (1 + d) ** (i * nref) - 1 + 1e-12
                         checks = [("norm", abs(np.sum(np.abs(sv[i]) ** 2) - 1.0), nd),
                                   ("purity", abs(np.real(np.trace(out[i].dot(out[i]))) - 1.0), 4 * b),
                                   ("energy", abs(np.real(np.trace(Hm.dot(out[i]))) - np.real(np.trace(Hm.dot(rp)))), 2 * b * float(np.linalg.norm(Hm))),
-                                  ("sv_vs_dm", float(np.linalg.norm(out[i] - np.outer(sv[i], sv[i].conj()))), 4 * b),
-                                  ("exact_unitary", float(np.linalg.norm(sv[i] - scipy.linalg.expm(-1j * Hm * ta.data[i]).dot(psi0))), b)]
+                                  ("sv_vs_dm", float(np.linalg.norm(out[i] - np.outer(sv[i], sv[i].conj()))), 4 * max(b, bH)),
+                                  ("exact_unitary", float(np.linalg.norm(sv[i] - scipy.linalg.expm(-1j * Hm * ta.data[i]).dot(psi0))), bH)]
                         bad = [(nm, v, bb) for (nm, v, bb) in checks if v > bb]
                         if bad:
                             nm, v, bb = bad[0]
